@@ -68,7 +68,10 @@ inductive InlineRoute
                       `len(parts) > 1` → `to.With(name, parseDescriptor(parts[1]))`, otherwise `missing`;
         `x` a Row:    `createTemplateFromRow(x)` (an error is returned), `ti = ti.WithRow(name, sub.ti)`,
                       `to = to.WithRow(name, sub.to)`;
-        anything else: the entry is skipped. -/
+        anything else: the entry is skipped.
+      Also this shape when both descriptors are parsed before the two `With` (a helper returning
+      `(parts[0], parts[0])` when `len(parts) < n` and `(parts[0], parts[1])` otherwise, `n = 2`): `parseDescriptor` is a
+      function of its text, so parsing `parts[0]` a second time is `sameAsInput`. -/
   | splitN (sep : String) (n : Nat) (missing : MissingOutput)
   | unknown (text : String)
   deriving DecidableEq, Repr
@@ -83,7 +86,7 @@ inductive TemplateFlags
 /-- `createTemplate(cmd)` -/
 inductive CreateTemplate
   /-- `ParseRowDefinition(filename)` FIRST (an error is returned: fatal even when `-t` is given); then, when
-      `len(template) > minLen && template != except`, `createTemplateFromString(template)` REPLACES the pair
+      `len(template) > minLen && template != except` (for `minLen = 0` also written `template != ""`), `createTemplateFromString(template)` REPLACES the pair
       (an error is returned); otherwise the file's pair is returned. -/
   | fileThenInlineReplaces (minLen : Nat) (except : String)
   | unknown (text : String)
